@@ -324,6 +324,8 @@ def gen_cases(tier, seed):
             for U in ("I", "householder", "dft"):
                 for start in (0, 1, 2):
                     cases.append(dict(kind="power", n=n, spectrum=spn, U=U, start=start))
+                    if n >= 2:
+                        cases.append(dict(kind="power", n=n, spectrum=spn, U=U, start=start, via="MaxEig"))
                 if n in (2, 4) and spn in ("two", "geom100"):
                     # operators far from unit scale (largest eigenvalue below machine epsilon / very large), float32 too
                     for scale in (1e-20, 1e-9, 1e12):
@@ -530,7 +532,12 @@ def run_power(case):
     lmax = float(np.linalg.eigvalsh(A.astype(np.complex128)).max())
     x = {0: np.ones(n, complex), 1: (np.cos(np.arange(n) + 1.0) + 1j * np.sin(np.arange(n) * 2.0 + 0.3)),
          2: U[:, -1] + 0.01 * np.ones(n)}[case["start"]].astype(cdt).copy()
-    alg = sp.alg.PowerMethod(sp.linop.MatMul([n, 1], A), x.reshape(n, 1), max_iter=30)
+    if case.get("via") == "MaxEig":
+        # the App that the solvers use for their default step sizes (random start, its own normalisation)
+        np.random.seed(1234 + case["start"])
+        alg = sp.app.MaxEig(sp.linop.MatMul([n, 1], A), dtype=cdt, max_iter=30, show_pbar=False).alg
+    else:
+        alg = sp.alg.PowerMethod(sp.linop.MatMul([n, 1], A), x.reshape(n, 1), max_iter=30)
     xx = alg.x
     est = []
     while not alg.done():
